@@ -7,6 +7,7 @@ package main
 
 import (
 	"os"
+	"strings"
 
 	"wa-lang.org/wa/internal/zzverif/mc"
 	"wa-lang.org/wa/internal/zzverif/progs"
@@ -25,11 +26,15 @@ func main() {
 	pool := mc.NewPool(mc.NWorkers(), nil)
 	defer pool.Close()
 	types := progs.IntTypes
-	fams := []progs.Family{progs.FamIntBinary(types), progs.FamIntUnary(types), progs.FamShift(types), progs.FamIntConv(types), progs.FamFloat(types)}
+	th := r.Thorough()
+	fams := []progs.Family{progs.FamIntBinary(types), progs.FamIntUnary(types), progs.FamShift(types), progs.FamIntConv(types), progs.FamFloat(types),
+		progs.FamCtrl(th), progs.FamFunc(th),
+		progs.FamDataValue(th), progs.FamDataSlice(th), progs.FamDataString(th), progs.FamDataMap(th), progs.FamDataIface(th)}
 	if f := os.Getenv("C01_FAMILY"); f != "" {
+		// exact family name, or a prefix: C01_FAMILY=data selects data-value, data-slice, ...
 		var sel []progs.Family
 		for _, x := range fams {
-			if x.Name == f {
+			if x.Name == f || strings.HasPrefix(x.Name, f+"-") {
 				sel = append(sel, x)
 			}
 		}
